@@ -16,11 +16,58 @@ package main
 // what every later lookup sees.
 
 import (
+	"encoding/json"
 	"fmt"
+	"os"
+	"os/exec"
+	"path/filepath"
 	"sync"
 	"sync/atomic"
 	"time"
 )
+
+func init() { commands["c08conc"] = runC08ConcChild }
+
+// c08Concurrent runs the stage for each backend in a child process: an unsynchronised map access is a fatal
+// error of the Go runtime that no recover() catches — the child dying IS the observation then.
+func c08Concurrent(c *Ctx) {
+	self, _ := os.Executable()
+	for _, storage := range []string{"memory", "disk"} {
+		out := c.TempDir("c08conc_out_" + storage)
+		cmd := exec.Command(self, "c08conc", "--out", out, "--work", filepath.Join(c.Work, "c08conc_"+storage)+"|"+storage, "--tier", c.Tier, "--seed", fmt.Sprint(c.Seed))
+		cmd.Env = append(os.Environ(), "VERIF_DIR="+os.Getenv("VERIF_DIR"))
+		b, err := cmd.CombinedOutput()
+		var res c08ConcResult
+		rb, rerr := os.ReadFile(filepath.Join(out, "c08conc.json"))
+		c.Count("concurrent=" + storage)
+		c.Nontrivial("concurrent|" + storage)
+		if err != nil || rerr != nil || json.Unmarshal(rb, &res) != nil {
+			txt := string(b)
+			if i := indexOf(txt, "fatal error:"); i >= 0 {
+				txt = txt[i:]
+			}
+			if len(txt) > 1500 {
+				txt = txt[:1500]
+			}
+			c.Fail("", fmt.Sprintf("lookups concurrent with refreshes (%s): the process died: %v: %s", storage, err, txt), map[string]string{"storage": storage, "output": txt})
+			continue
+		}
+		c.Sample(res)
+		c.Rep.Cases += int(res.Lookups)
+		if res.BadCount > 0 {
+			c.Fail("", fmt.Sprintf("lookups concurrent with refreshes (%s): %d bad observations, first: %s", storage, res.BadCount, res.Bad), res)
+		}
+	}
+}
+
+func indexOf(s, sub string) int {
+	for i := 0; i+len(sub) <= len(s); i++ {
+		if s[i:i+len(sub)] == sub {
+			return i
+		}
+	}
+	return -1
+}
 
 type c08ConcResult struct {
 	Storage  string `json:"storage"`
@@ -32,12 +79,16 @@ type c08ConcResult struct {
 	BadCount int64  `json:"bad"`
 }
 
-func c08Concurrent(c *Ctx) {
-	versions := 12
+func runC08ConcChild(c *Ctx) {
+	parts := splitBar(c.Work)
+	c.Work = parts[0]
+	os.MkdirAll(c.Work, 0700)
+	only := parts[1]
+	versions := 36
 	if c.Thorough() {
-		versions = 60
+		versions = 200
 	}
-	for _, storage := range []string{"memory", "disk"} {
+	for _, storage := range []string{only} {
 		res := &c08ConcResult{Storage: storage, Fetch: "fetch_actively", Versions: versions}
 		w := NewWorld(c, "c08conc_"+storage)
 		filler := make([]int64, 0, 300)
@@ -70,7 +121,7 @@ func c08Concurrent(c *Ctx) {
 				res.Bad = msg
 			}
 		}
-		for g := 0; g < 12; g++ {
+		for g := 0; g < 16; g++ {
 			wg.Add(1)
 			go func(g int) {
 				defer wg.Done()
@@ -145,12 +196,21 @@ func c08Concurrent(c *Ctx) {
 		atomic.StoreInt32(&stop, 1)
 		wg.Wait()
 		w.Close()
-		c.Count("concurrent=" + storage)
-		c.Nontrivial("concurrent|" + storage)
-		c.Sample(res)
-		c.Rep.Cases += int(res.Lookups)
-		if res.BadCount > 0 {
-			c.Fail("", fmt.Sprintf("lookups concurrent with refreshes (%s): %d bad observations, first: %s", storage, res.BadCount, res.Bad), res)
+		rb, _ := json.Marshal(res)
+		os.WriteFile(filepath.Join(c.Out, "c08conc.json"), rb, 0644)
+	}
+}
+
+func splitBar(s string) []string {
+	var out []string
+	cur := ""
+	for _, r := range s {
+		if r == '|' {
+			out = append(out, cur)
+			cur = ""
+		} else {
+			cur += string(r)
 		}
 	}
+	return append(out, cur)
 }
